@@ -104,19 +104,25 @@ theorem advance_le_scaled (rate diff : Nat) (h : Gen.CLOCK_NOMINAL - Gen.CLOCK_A
   apply Nat.div_le_div_left h
   simp [Gen.CLOCK_NOMINAL, Gen.CLOCK_ADJUST_LIMIT]
 
-/-- the remainder carried in `s_realTimePrevious`: what is put back never exceeds what was taken,
+/-- the remainder carried in `s_realTimePrevious`: what is put back (rounded up) never exceeds what was taken,
     so accounted host time never runs ahead of reported host time -/
 theorem readjust_le (rate diff : Nat) :
-    advance rate diff * rate / Gen.CLOCK_NOMINAL ≤ diff := by
+    (advance rate diff * rate + Gen.CLOCK_NOMINAL - 1) / Gen.CLOCK_NOMINAL ≤ diff := by
   unfold advance
   have h1 : diff * Gen.CLOCK_NOMINAL / rate * rate ≤ diff * Gen.CLOCK_NOMINAL := Nat.div_mul_le_self _ _
-  calc diff * Gen.CLOCK_NOMINAL / rate * rate / Gen.CLOCK_NOMINAL
-      ≤ diff * Gen.CLOCK_NOMINAL / Gen.CLOCK_NOMINAL := Nat.div_le_div_right h1
-    _ = diff := Nat.mul_div_cancel _ (by simp [Gen.CLOCK_NOMINAL])
+  simp only [Gen.CLOCK_NOMINAL] at h1 ⊢
+  omega
+
+/-- … and covers what was credited: TPM time gained × rate ≤ host time accounted for × nominal. This is what keeps the
+    same host millisecond from being credited twice (the fix of known finding G: the accounted time was rounded down) -/
+theorem readjust_covers (rate diff : Nat) :
+    advance rate diff * rate ≤ (advance rate diff * rate + Gen.CLOCK_NOMINAL - 1) / Gen.CLOCK_NOMINAL * Gen.CLOCK_NOMINAL := by
+  simp only [Gen.CLOCK_NOMINAL]
+  omega
 
 theorem adjust_realPrev_le (p : Plat)
     (hd : (p.lastReported - p.realPrev) * Gen.CLOCK_NOMINAL < W) (hlr : p.lastReported < W)
-    (hm : advance p.adjustRate (p.lastReported - p.realPrev) * p.adjustRate < W) :
+    (hm : advance p.adjustRate (p.lastReported - p.realPrev) * p.adjustRate + Gen.CLOCK_NOMINAL - 1 < W) :
     p.realPrev ≤ p.lastReported → p.adjust.realPrev ≤ p.lastReported := by
   intro hle
   unfold Plat.adjust
@@ -530,19 +536,118 @@ set_option maxRecDepth 100000 in
 theorem safe_until_passed_fails :
     witnessF.1.safe = true ∧ witnessF.1.clock < witnessF.2 := by decide +kernel
 
-/-! ### The 'never ahead of elapsed host time' clause does NOT hold under fine-grained polling (known finding G) -/
+/-! ### 'Never ahead of elapsed host time' under fine-grained polling (former known finding G, repaired by fix: … in Clock.c) -/
 
 /-- poll the timer every millisecond, `n` times, starting at host time `m0` -/
 def pollN (p : Plat) (m0 n : Nat) : Plat := (List.range n).foldl (fun p i => (p.timerRead (m0 + i + 1)).1) p
 
-/-- After one COARSE_FASTER adjustment (1 % faster), 300 polls one millisecond apart advance TPM time by more than
-    300·30000/25000 = 360 ms, the bound for the FASTEST permitted rate: Clock runs ahead of scaled host time.
-    (Per-step the advance is bounded — `advance_le_scaled` — but `s_realTimePrevious` only moves by the doubly
-    rounded `readjustedTimeDiff`, so the same host millisecond is counted again at the next poll.) -/
-theorem never_ahead_fails :
+/-- the history that showed the defect — one COARSE_FASTER adjustment, then 300 polls one millisecond apart: with the accounted
+    time rounded up the TPM time gained stays within 300·30000/25000 = 360 ms, the bound for the fastest permitted rate
+    (a test of the repaired arithmetic on the witness; the general statement is `readjust_covers` per step) -/
+theorem never_ahead_witness :
     let p0 := ((({} : Plat).timerRead 1000).1.rateAdjust 3)
-    (pollN p0 1000 300).tpmTime - p0.tpmTime > 300 * Gen.CLOCK_NOMINAL / (Gen.CLOCK_NOMINAL - Gen.CLOCK_ADJUST_LIMIT) := by
+    (pollN p0 1000 300).tpmTime - p0.tpmTime ≤ 300 * Gen.CLOCK_NOMINAL / (Gen.CLOCK_NOMINAL - Gen.CLOCK_ADJUST_LIMIT) := by
   decide +kernel
+
+/-- **never ahead, cumulatively**: the TPM time credited so far, scaled by the fastest permitted rate, never exceeds the host
+    time accounted for, which never exceeds the host time reported -/
+def Covered (p : Plat) : Prop :=
+  p.tpmTime * (Gen.CLOCK_NOMINAL - Gen.CLOCK_ADJUST_LIMIT) ≤ p.realPrev * Gen.CLOCK_NOMINAL ∧ p.realPrev ≤ p.lastReported
+
+set_option maxRecDepth 100000 in
+theorem adjust_covered (p : Plat) (hr : RateOk p) (hb : p.lastReported < 2 ^ 40) (h : Covered p) : Covered p.adjust := by
+  obtain ⟨h1, h2⟩ := h
+  obtain ⟨hr1, hr2⟩ := hr
+  simp only [Gen.CLOCK_NOMINAL, Gen.CLOCK_ADJUST_LIMIT] at h1 hr1 hr2
+  unfold Covered Plat.adjust
+  split
+  · exact ⟨h1, h2⟩
+  · rename_i hlt
+    simp only [Gen.CLOCK_NOMINAL, Gen.CLOCK_ADJUST_LIMIT]
+    generalize hd : p.lastReported - p.realPrev = d
+    have hdb : d < 2 ^ 40 := by omega
+    have hdn : d * 30000 < W := by unfold W; omega
+    rw [Nat.mod_eq_of_lt hdn]
+    generalize hadj : d * 30000 / p.adjustRate = adj
+    have hrpos : 0 < p.adjustRate := by omega
+    have hadj1 : adj * p.adjustRate ≤ d * 30000 := by rw [← hadj]; exact Nat.div_mul_le_self _ _
+    have hadjb : adj ≤ d * 30000 / 25000 := by rw [← hadj]; exact Nat.div_le_div_left hr1 (by omega)
+    have hadjb2 : adj < 2 ^ 41 := by omega
+    -- adj * rate as an atom
+    generalize hx : adj * p.adjustRate = x at hadj1
+    have hxl : adj * 25000 ≤ x := by rw [← hx]; exact Nat.mul_le_mul_left _ hr1
+    have hxw : x + 30000 - 1 < W := by unfold W; omega
+    rw [Nat.mod_eq_of_lt hxw]
+    have htpm : p.tpmTime < 2 ^ 42 := by omega
+    have ht : p.tpmTime + adj < W := by unfold W; omega
+    have hrp : p.realPrev + (x + 30000 - 1) / 30000 < W := by unfold W; omega
+    rw [add64_eq ht, add64_eq hrp]
+    constructor
+    · omega
+    · omega
+
+/-- a rate adjustment does not touch what was credited or accounted -/
+theorem rateAdjust_covered (p : Plat) (a : Int) (h : Covered p) : Covered (p.rateAdjust a) := by
+  unfold Covered Plat.rateAdjust at *
+  exact h
+
+/-- a later host reading only raises the reported time (hypotheses of `report_mono`) -/
+theorem report_covered (p : Plat) (m : Nat) (hls : p.lastSystem ≠ 0) (hnw : p.lastReported + p.realTime m < W)
+    (hhost : p.lastSystem ≤ p.realTime m ∨ p.realTime m < p.lastReported) (h : Covered p) : Covered (p.report m) := by
+  have hm := report_mono p m hls hnw hhost
+  obtain ⟨h1, h2⟩ := h
+  have ht : (p.report m).tpmTime = p.tpmTime := by unfold Plat.report; simp
+  have hrp : (p.report m).realPrev = p.realPrev := by unfold Plat.report; simp [hls]
+  unfold Covered
+  rw [ht, hrp]
+  exact ⟨h1, by omega⟩
+
+/-- the state after a reset followed by its first reading is covered -/
+theorem reset_first_covered (p : Plat) (m : Nat) : Covered (p.reset.report m) := by
+  unfold Covered Plat.report Plat.reset
+  simp
+
+/-- one `_plat__TimerRead` keeps the invariant -/
+def StepOk (p : Plat) (m : Nat) : Prop :=
+  p.lastSystem ≠ 0 ∧ p.lastReported + p.realTime m < W ∧ (p.lastSystem ≤ p.realTime m ∨ p.realTime m < p.lastReported) ∧
+  (p.report m).lastReported < 2 ^ 40
+
+theorem report_rate (p : Plat) (m : Nat) : (p.report m).adjustRate = p.adjustRate := by unfold Plat.report; simp
+theorem adjust_rate (p : Plat) : p.adjust.adjustRate = p.adjustRate := by unfold Plat.adjust; split <;> simp
+
+theorem timerRead_covered (p : Plat) (m : Nat) (hr : RateOk p) (hs : StepOk p m) (h : Covered p) :
+    Covered (p.timerRead m).1 ∧ RateOk (p.timerRead m).1 := by
+  obtain ⟨h1, h2, h3, h4⟩ := hs
+  have hc := report_covered p m h1 h2 h3 h
+  have hr' : RateOk (p.report m) := by unfold RateOk at *; rw [report_rate]; exact hr
+  refine ⟨adjust_covered (p.report m) hr' h4 hc, ?_⟩
+  unfold RateOk Plat.timerRead at *
+  simp only
+  rw [adjust_rate, report_rate]; exact hr
+
+/-- every reading of a poll schedule meets the side conditions (no 64-bit overflow, host time below 2^40 ms ≈ 34 years,
+    the host clock not behind the last reading unless it restarted below the reported time) -/
+def AllOk : Plat → List Nat → Prop
+  | _, [] => True
+  | p, m :: ms => StepOk p m ∧ AllOk (p.timerRead m).1 ms
+
+/-- **never ahead of elapsed host time, for EVERY poll schedule** (any number of readings, any spacing — also one
+    millisecond apart — at any permitted rate): the TPM time credited, scaled by the fastest permitted rate, stays below
+    the host time accounted for, which stays below the host time reported. Known finding G was the failure of exactly this
+    statement for the unrepaired arithmetic. -/
+theorem polls_covered : ∀ (ms : List Nat) (p : Plat), RateOk p → Covered p → AllOk p ms →
+    Covered (ms.foldl (fun p m => (p.timerRead m).1) p) := by
+  intro ms
+  induction ms with
+  | nil => intro p _ h _; exact h
+  | cons m ms ih =>
+    intro p hr h hall
+    obtain ⟨hs, hrest⟩ := hall
+    obtain ⟨hc', hr'⟩ := timerRead_covered p m hr hs h
+    exact ih _ hr' hc' hrest
+
+example : Covered ((({} : Plat).timerRead 1000).1.rateAdjust 3) ∧ StepOk ((({} : Plat).timerRead 1000).1.rateAdjust 3) 1001 := by
+  unfold Covered StepOk; decide
 
 /-! ### Non-vacuity: the hypotheses used above are met by reachable states -/
 
